@@ -53,6 +53,7 @@ def run_task_child(tid, conn, workers):
         for x in res:
             ob = obl[x["idx"]]
             x["expect"] = ob.get("expect", "proved")
+            x["group"] = ob.get("group")
             x["hints"] = ob.get("hints")
             x["unfinished"] = ob.get("unfinished")
             x.pop("model_obj_idx", None)
@@ -172,9 +173,21 @@ def check(prop, tier, seed):
         real = [x for x in r["results"] if x["expect"] != "fail"]
         if not real:
             vacuity_errors.append(f"task {tid} generated zero obligations")
+        groups = {}
+        for x in r["results"]:
+            if x["expect"] == "fail" and x.get("group"):
+                groups.setdefault(x["group"], []).append(x["verdict"] != "proved")
+        for g, oks in groups.items():
+            canaries["expected_to_fail"] += 1
+            if any(oks):
+                canaries["failed_as_expected"] += 1
+            else:
+                vacuity_errors.append(f"cover group `{g}` of task {tid}: every one of its {len(oks)} paths has contradictory hypotheses")
         for x in r["results"]:
             solver_time += x["time"]
             if x["expect"] == "fail":
+                if x.get("group"):
+                    continue
                 canaries["expected_to_fail"] += 1
                 if x["verdict"] == "proved":
                     vacuity_errors.append(f"canary `{x['name']}` of task {tid} was proved: hypotheses are contradictory")
@@ -232,6 +245,7 @@ def check(prop, tier, seed):
                 engine_errors.append(("selftest", f"seeded edit not detected: {e['file']}: {e['edit']}"))
     # ---- failures: witness search + replay
     seen = set()
+    pin_undecided = []
     for tid, x in failures:
         key = (tid, x["name"])
         if key in seen:
@@ -253,6 +267,12 @@ def check(prop, tier, seed):
                 known_lines.append(f"KNOWN-FINDING: property={prop} {f['what']}")
                 known_obls.append({"obligation": x["name"], "discharged_outside_region": True, "region": f.get("region"), "witness": w.get("input")})
                 continue
+        if x.get("kind") == "pin" and not w.get("found"):
+            # the text of a function that an ASSUMED contract / bounded stand-in was written for has changed: the assumption no longer
+            # applies, which decides nothing about the property -- reported as undecided (exit 3), never as a violation, unless the
+            # concrete search above found a failing input on the real code
+            pin_undecided.append((tid, f"undecided: {x['name']} (source text changed: {(x.get('hints') or {}).get('actual')} != {(x.get('hints') or {}).get('expected')}); no failing input found by the concrete search"))
+            continue
         safe = hashlib.sha1(x["name"].encode()).hexdigest()[:10]
         path = os.path.join("replays", prop, f"{tid.replace('/', '_')}-{safe}.json")
         rec = {"property": prop, "task": tid, "obligation": x["name"], "verdict": x["verdict"], "solver": {"backend": x["backend"], "reason": x.get("reason"),
@@ -275,6 +295,8 @@ def check(prop, tier, seed):
                     exit_code = 1
         if exit_code == 0:
             exit_code = 3
+    if pin_undecided and exit_code == 0:
+        exit_code = 3
     wall = round(time.time() - t_start, 2)
     level = pinfo["level"]
     # an obligation carried as a known finding is not counted among the obligations claimed as proved: it is listed separately,
@@ -304,13 +326,18 @@ def check(prop, tier, seed):
     }
     ev = {"property_id": prop, "tier": tier, "seed": seed, "level": level, "coverage": cov, "assumptions": sorted(assumptions),
           "wall_s": wall, "violations": len(violations)}
-    json.dump(ev, open(os.path.join(VERIF, "evidence", f"{prop}.json"), "w"), indent=1, default=str)
+    # evidence/ describes /repo itself; a run pointed at another tree (PAMS_REPO=<scratch>) leaves its report under replays/
+    ev_dir = os.path.join(VERIF, "evidence") if os.path.realpath(REPO) == "/repo" else os.path.join(VERIF, "replays", "_other_tree_evidence")
+    os.makedirs(ev_dir, exist_ok=True)
+    json.dump(ev, open(os.path.join(ev_dir, f"{prop}.json"), "w"), indent=1, default=str)
     for l in known_lines:
         print(l)
     for tid, err in engine_errors:
         print(f"ENGINE-ERROR property={prop} task={tid}: {err.splitlines()[0][:300]}")
     for v in vacuity_errors:
         print(f"ENGINE-ERROR property={prop} vacuity: {v}")
+    for tid, msg in pin_undecided:
+        print(f"ENGINE-ERROR property={prop} task={tid}: {msg}")
     for v in violations:
         print(v)
     print(f"# {prop} tier={tier}: {n_dis}/{n_obl} obligations discharged over {len(tids)} tasks, {len(functions)} functions under contract, "
